@@ -281,6 +281,35 @@ func init() {
 		}
 		return out
 	})
+	reg("path/filepath.Base", func(ex *Exec, fr *Frame, a []Value) Value {
+		switch s := a[0].(type) {
+		case string:
+			return filepath.Base(s)
+		case *Rope:
+			if b, ok := baseName(s, dirOfPath(s)); ok {
+				return b
+			}
+		}
+		panic(unsupported("filepath.Base of symbolic path"))
+	})
+	reg("path/filepath.Clean", func(ex *Exec, fr *Frame, a []Value) Value {
+		if s, ok := a[0].(string); ok {
+			return filepath.Clean(s)
+		}
+		return a[0]
+	})
+	reg("path/filepath.Ext", func(ex *Exec, fr *Frame, a []Value) Value {
+		switch s := a[0].(type) {
+		case string:
+			return filepath.Ext(s)
+		case *Rope:
+			if last := s.parts[len(s.parts)-1]; last.t == nil {
+				return filepath.Ext("x" + last.s)
+			}
+			return ""
+		}
+		panic(unsupported("filepath.Ext"))
+	})
 	reg("path/filepath.Dir", func(ex *Exec, fr *Frame, a []Value) Value {
 		switch s := a[0].(type) {
 		case string:
